@@ -252,6 +252,29 @@ def make_layers(spec):
     return body
 
 
+def make_crossconfig(spec):
+    """ONE process, several configurations in turn: the same text is parsed under each configuration of spec['sequence'] (settings of the real side +
+    settings of the reference), each time compared with the reference evaluator under that configuration.  Name/whitespace classification must be
+    that of the configuration in effect for the parse at hand, whatever an earlier parse in the process used."""
+    from ..pegbody import make_peg
+    bodies = []
+    for settings, refs in spec['sequence']:
+        bodies.append(make_peg({**spec, 'settings': settings, 'ref': refs}))
+
+    def body(args):
+        tags = []
+        for i, b in enumerate(bodies):
+            ok, tag, dg = b(args)
+            if not ok:
+                return False, f'config{i}:{tag}', dg
+            tags.append(tag)
+        return True, ('ok' if 'ok' in tags else tags[0]), tags
+
+    body.explain = lambda args: '\n---\n'.join(f'configuration {i}: {spec["sequence"][i][0]}\n' + b.explain(args) for i, b in enumerate(bodies))
+    body.warm = bodies[0].warm
+    return body
+
+
 def plan(tier, seed):
     obs = []
     # A
@@ -298,6 +321,23 @@ def plan(tier, seed):
                 spec = {'grammar': gn + tag, 'program': gn, 'rules': rules, 'n': n, 'settings': settings, 'ref': refs, 'warm': ['ab', 'abc', 'ab-', 'ab-c', 'AB', 'aB', 'ab ', 'abC', 'ab$', 'abcC', 'a b']}
                 obs.append(Ob(name=f'B_{gn}_{tag}_L{n}', factory='vt.pegbody:make_peg', spec=spec, params=[(f'c{i}', 0, UNI) for i in range(n)],
                               budget={2: 90, 3: 400, 4: 1800}[n], group='B'))
+    # B2: several configurations in one process (process-wide caches keyed by token text or pattern must not carry a verdict from one configuration into another)
+    X_RULES = {'dash_token': [('start', S(T('a-b'), P('(?s).?')))], 'plain_token': [('start', S(T('ab'), OPT(T('-')), P('(?s).?')))]}
+    X_SEQS = {
+        'namechars_then_default': [({'namechars': '-'}, {'namechars': '-'}), ({}, {}), ({'namechars': '-'}, {'namechars': '-'})],
+        'default_then_namechars': [({}, {}), ({'namechars': '-'}, {'namechars': '-'}), ({}, {})],
+        'noguard_then_guard': [({'nameguard': False}, {'nameguard': False}), ({'nameguard': True, 'namechars': '-'}, {'nameguard': True, 'namechars': '-'}), ({}, {})],
+        'ignorecase_then_default': [({'ignorecase': True}, {'ignorecase': True}), ({}, {}), ({'ignorecase': True, 'namechars': '-'}, {'ignorecase': True, 'namechars': '-'})],
+    }
+    for gn, rules in X_RULES.items():
+        fixed = 'a-b' if gn == 'dash_token' else 'ab'
+        for sn, seq in X_SEQS.items():
+            for extra in ((1,) if tier == 'quick' else (1, 2)):
+                n = len(fixed) + extra
+                spec = {'grammar': f'{gn}_{sn}', 'program': 'cross:' + gn, 'rules': rules, 'n': n, 'sequence': seq, 'warm': ['a-bc', 'a-b', 'a-b-', 'abc', 'ab-', 'ab-c', 'A-Bc', 'ABc', 'a-b c']}
+                obs.append(Ob(name=f'B2_{gn}_{sn}_L{n}', factory='vt.props.c09:make_crossconfig', spec=spec,
+                              params=[(f'c{i}', 0, UNI) for i in range(n)], budget={3: 300, 4: 600, 5: 1800}.get(n, 600), group='B2',
+                              extra_pre=' and '.join(f'(c{i} == {ord(ch)} or c{i} == {ord(ch.upper())})' for i, ch in enumerate(fixed))))
     # C
     for setting in LAYER_PROBES:
         obs.append(Ob(name=f'C_layers_{setting}', factory='vt.props.c09:make_layers', spec={'setting': setting, 'program': setting},
@@ -310,7 +350,8 @@ def plan(tier, seed):
                        'symbolic code points constrained to str.isspace() - optionally with a solver-selected comment of either kind inside - and the AST must equal that '
                        'of the single-space layout; twins assert that whitespace is NOT skipped before a pattern or at the entry of an upper-case rule, and is before a '
                        'lower-case rule. B: token followed by symbolic characters under nameguard {None, True, False} x namechars {"", "-$"} x ignorecase: real == '
-                       'reference evaluator for every text. C: each configuration setting given at compile time, as a directive and at parse time (absent / value 1 / '
+                       'reference evaluator for every text. B2: the same text parsed under a SEQUENCE of configurations in one process (namechars given / not given, nameguard off / on, '
+                       'ignorecase), each parse compared with the reference under its own configuration: a verdict cached from an earlier configuration must not leak. C: each configuration setting given at compile time, as a directive and at parse time (absent / value 1 / '
                        'value 2, solver-chosen selectors): the behaviour observed through probe texts is that of the highest-priority layer present.',
         'functions_encoded': ['tatsu.input.textlines:TextLinesCursor.next_token/eat_whitespace/eat_comments/eat_eol_comments/match/is_name_char/is_name', 'tatsu.contexts.core:ParserCore.next_token',
                               'tatsu.contexts.context:ParseContext.token/pattern/constant/eofcheck/void', 'tatsu.contexts.engine:ParserEngine.call/rule_call (whitespace on rule entry)',
